@@ -1,6 +1,7 @@
 """C02: one invocation per Buildable instance; built graph mirrors config graph."""
 from __future__ import annotations
 
+import collections
 import functools
 
 import fiddle as fdl
@@ -43,6 +44,7 @@ MENUS = {
     'full': ['cfg', 'cfgb', 'par', 'list1', 'list2', 'tuple2', 'dict2', 'nt',
              'tmp', 'tuple0', 'list0'],
     'mid': ['cfg', 'list2', 'tuple2', 'dict1', 'tmp'],
+    'nt': ['cfg', 'par', 'nt', 'ntsub', 'ddict1', 'list1'],
     'tagged': ['cfg', 'list2', 'dict1', 'tvv'],
     'small': ['cfg', 'list2', 'tuple1'],
     'failing': ['cfg', 'cfgfail', 'list2'],
@@ -51,10 +53,11 @@ MENUS = {
 
 def bounds(tier):
   if tier == 'quick':
-    return {'plans': [['full', 3, 1], ['mid', 4, 1], ['tagged', 4, 1]],
+    return {'plans': [['full', 3, 1], ['mid', 4, 1], ['tagged', 4, 1],
+                      ['nt', 3, 1]],
             'chains': [50, 150]}
   return {'plans': [['full', 3, 2], ['full', 4, 1], ['small', 5, 1],
-                    ['tagged', 4, 2]],
+                    ['tagged', 4, 2], ['nt', 4, 1]],
           'chains': [50, 150, 250]}
 
 
@@ -98,6 +101,9 @@ def ref_build(x, memo):
     out = type(x)(*[ref_build(v, memo) for v in x])
   elif type(x) is dict:
     out = {k: ref_build(v, memo) for k, v in x.items()}
+  elif type(x) is collections.defaultdict:
+    out = collections.defaultdict(
+        x.default_factory, {k: ref_build(v, memo) for k, v in x.items()})
   elif type(x) is N.Tmp:
     out = N.Tmp(ref_build(x.a, memo), ref_build(x.b, memo))
   else:
@@ -134,7 +140,7 @@ def pair_walk(cfg, built, fmap, problems, path='<root>'):
     key = 'B'
   elif type(cfg) is list:
     key = 'list'
-  elif type(cfg) is dict:
+  elif type(cfg) in (dict, collections.defaultdict):
     key = 'dict'
   elif isinstance(cfg, tuple) and cfg != ():
     key = 'tuple'
@@ -173,8 +179,8 @@ def pair_walk(cfg, built, fmap, problems, path='<root>'):
       return
     for i, (a, b) in enumerate(zip(cfg, built)):
       pair_walk(a, b, fmap, problems, f'{path}[{i}]')
-  elif type(cfg) is dict:
-    if type(built) is not dict or list(built) != list(cfg):
+  elif type(cfg) in (dict, collections.defaultdict):
+    if type(built) is not type(cfg) or list(built) != list(cfg):
       problems.append(f'{path}: dict keys differ')
       return
     for k in cfg:
@@ -417,6 +423,14 @@ def run_failing(k, res, n, only=None):
             f'C02/invoked-more-than-once-in-a-failing-build/{ename}',
             f'{case}: invocation log {log} (expected: every node at most '
             f'once, the failing one exactly once and last)', case)
+      else:
+        # the next build of the same objects (the callable no longer fails)
+        # is a build like any other: nothing of the failed one is reused
+        n_before = len(res.violations)
+        check_root(root, res, dict(case, phase='build-after-failed-build'),
+                   'after-failed-build')
+        if len(res.violations) > n_before:
+          continue
 
 
 def _chain(d, flavour):
